@@ -21,8 +21,12 @@ Open Scope Z_scope.
    The executable definition of that class is the generator of harness/parser/gen.go; the
    correspondence run of the check compares implementation, model and denotation on it.
 
-   PROVED (below): the statement for all 16 dispatching kinds and unknown lines (top-level SG_ excepted), in the plain layout (one line per definition
-   or signal, tokens separated by single spaces, LF, every line terminated), any count and order:
+   PROVED (below): the statement for all 16 dispatching kinds and unknown lines (top-level SG_ excepted), any count
+   and order, in the layouts described by [wf_lfile cr its gend]: one line per definition or signal,
+   tokens separated by single spaces, every line terminated by the same run [cr] of spaces and carriage
+   returns followed by LF ([cr] = [] : LF files, [13] : CRLF files, spaces : trailing blanks), any
+   number of blank lines (spaces, carriage returns, line ends; LF or CRLF) before every definition and
+   at the end of the file (positions = the line / byte offset where the definition really starts):
      VERSION; BS_ (all three forms); BU_; BO_ with its SG_ lines (plain / multiplexer switch M /
      multiplexed m<k> signals, both byte orders and signs, factor, offset, minimum, maximum, unit,
      one or more receivers; message id valid standard / extended / pseudo id);
@@ -42,23 +46,32 @@ Open Scope Z_scope.
    line ends (each read as one space; the following definitions are then positioned on the later
    lines) and a backslash before anything but a quote; positions of value descriptions included.
    NOT covered by the proof: top-level SG_, UTF-8 in strings, line ends in strings other than the
-   CM_ text, the other layouts (CRLF, blank lines, indentation, extra spaces, empty
-   gaps, line ends inside definitions). *)
+   CM_ text, the other layouts (indentation, extra spaces between tokens, empty gaps next to
+   punctuation, line ends inside definitions, blank lines between the SG_ lines of a message or the
+   symbol lines of NS_, tabs as blanks, line-end runs that differ from line to line). *)
 
-(** parse (print ds) = Ok (elaborate ds): one definition per source definition, in order, every field
-    equal to the source value, position = (line of the definition, column 1, byte offset of its line) *)
-Theorem C04_parse_print_partial : forall (il id : Z -> bool) (ds : list sdef),
-  wf_file ds -> parse_bytes il id (print ds) = Ok (elaborate ds).
-Proof. exact parse_print_partial. Qed.
+(** parse (print_file cr its gend) = Ok (elaborate_file cr its): one definition per source definition,
+    in order, every field equal to the source value, position = (line of the definition, column 1,
+    byte offset of its line), for items [its] = (blank lines, definition) pairs, the line-end run [cr]
+    and the final blank lines [gend] *)
+Theorem C04_parse_print_partial : forall (il id : Z -> bool) (cr : list Z) (its : list item) (gend : list Z),
+  wf_lfile cr its gend -> parse_bytes il id (print_file cr its gend) = Ok (elaborate_file cr its).
+Proof. exact parse_print_layout. Qed.
 Print Assumptions C04_parse_print_partial.
+
+(** the plain layout (LF, no blank lines) as a special case, in the earlier form *)
+Theorem C04_parse_print_plain : forall (il id : Z -> bool) (ds : list sdef),
+  wf_file ds -> parse_bytes il id (print [] ds) = Ok (elaborate [] ds).
+Proof. exact (fun il id ds H => parse_print_partial il id [] ds (Forall_nil _) H). Qed.
+Print Assumptions C04_parse_print_plain.
 
 (** a line that starts with an unrecognised keyword yields exactly one unknown definition and never
     changes how the following lines are parsed *)
-Theorem C04_unknown_one : forall (il id : Z -> bool) kw ts (ds : list sdef),
-  wf_sdef (SUnknown kw ts) -> wf_file ds ->
-  parse_bytes il id (print (SUnknown kw ts :: ds))
+Theorem C04_unknown_one : forall (il id : Z -> bool) (cr : list Z) kw ts (ds : list sdef),
+  cr_ok cr -> wf_sdef (SUnknown kw ts) -> wf_file ds ->
+  parse_bytes il id (print cr (SUnknown kw ts :: ds))
   = Ok (DUnknown {| p_line := 1; p_column := 1; p_offset := 0 |} kw
-        :: elab_from [] 2 (blen (print_def (SUnknown kw ts))) ds).
+        :: elab_from cr [] 2 (blen (print_def cr (SUnknown kw ts))) ds).
 Proof. exact unknown_one. Qed.
 Print Assumptions C04_unknown_one.
 
@@ -96,6 +109,11 @@ Proof. exact (conj sample2_ds_wf_file eq_refl). Qed.
     BA_DEF_DEF_ "Z" ; / BA_ "A" BO_ 1 -3 ; / BA_ "E" SG_ 1 S "y" ; / BA_ "S" BU_ N "t" ; / BA_ "F" 2 ; / BA_ "H" EV_ V 7 ; *)
 Example C04_nonvacuous_attributes : wf_file sample3_ds /\ List.length sample3_ds = 14%nat.
 Proof. exact (conj sample3_ds_wf_file eq_refl). Qed.
+
+(** ... and the same 14 definitions laid out with CRLF line ends, a CRLF blank line before every
+    definition and a last line that holds one space *)
+Example C04_nonvacuous_layout : wf_lfile [13] sample_layout [32; 13; 10] /\ List.length sample_layout = 14%nat.
+Proof. exact (conj sample_layout_wf eq_refl). Qed.
 
 (** ... and the model parses a file of other kinds (BO_/SG_ with extended id, multiplexed big-endian
     signed signal, unknown line, two-line comment) to six definitions *)
